@@ -82,6 +82,9 @@ def check(ck: Checker) -> None:
     _r7.meta_from_info_own_keys(ck, "C01.algo")
     _r7.protect_always_chmods(ck, "C01.protect")
     _r7.failed_copy_never_trusted(ck, "C01.protect")
+    from . import round8 as _r8
+
+    _r8.post_copy_loop_always_runs(ck, "C01.protect")
     _r4.hashinfo_identity(ck, "C01.pair")
 
 
